@@ -2291,6 +2291,7 @@ class Connection_Manager( Object ):
         # response, producing a data.request.input encoded response, which we will pass back as our
         # own encoded response. Note that we assume, here, that we are dealing with CIP Requests
         # (ie. a .service code without bit 0x80 set), thus always followed by an EPATH.
+        target			= None
         try:
             if not targetpath: # Not required for "Connected" requests; otherwise, parse request EPATH
                 source		= rememberable( data.request.input )
@@ -2342,7 +2343,15 @@ class Connection_Manager( Object ):
             where		= "at %d total bytes:\n%s\n%s (byte %d)" % (
                 processed, repr(memory+future), '-' * (len(repr(memory))-1) + '^', pos )
             log.error( "EtherNet/IP CIP error %s\n", where )
-            raise
+            if ( target is None or not len( data.request.get( 'input', b'' ))
+                 or not isinstance( sys.exc_info()[1], Exception )):
+                raise
+            # The target Object couldn't parse, or didn't recognize the request (eg. an unsupported
+            # service).  Answer it alone with an error status, exactly as the same request is answered
+            # within a Multiple Service Packet (see Message_Router.request).
+            service		= bytearray( data.request.input[:1] )[0] & 0x7F
+            data.request	= dotdict( service=service | 0x80, status=0x08 ) # Service not supported
+            data.request.input	= bytearray( Object.produce( data.request ))
 
         if log.isEnabledFor( logging.INFO ):
             log.info( "%s Response: %s", self, enip_format( data ))
